@@ -38,7 +38,39 @@ def tiny_scope(chk):
     shutil.rmtree(d2, ignore_errors=True)
 
 
+def carry_model(chk):
+    """Implementation layer: the loop of expandCellsToDensity with its area carry, in exact rational arithmetic, one action per cell; TLC checks the
+    carry bound, conservation of area and their consequences (at most the target, short of it by less than the last cell's height, never narrower);
+    every final state is replayed into the real function (ties at exact integers are where double arithmetic may differ: informational)."""
+    import json
+    import shutil
+    import vlib
+    cfg = "ExpandImpl_" + chk.tier
+    d = vlib.scratch("C18-carry")
+    out = os.path.join(d, "finals.out")
+    res = vlib.tlc_ok(vlib.tlc("ExpandImpl", cfg=cfg, workers=16, coverage=True, stdout_path=out, timeout=3000, xmx="16g"), cfg)
+    if res["violated"]:
+        raise vlib.FrameworkError("ExpandImpl violates its own invariants: %s" % res["violated"])
+    if res["coverage"].get("Step", [0, 0])[1] == 0:
+        raise vlib.FrameworkError("vacuous ExpandImpl model")
+    chk.add_tlc(res, "tlc expansion loop (carry below one unit of width, area conserved, at most the target and near it, never narrower)")
+    exe = vlib.build_exe("asan-ubsan", "replay")
+    rc, so, se = vlib.run_exe(exe, stdin_path=out, timeout=3000)
+    if rc != 0:
+        chk.violation("the real expansion died on the instances of the expansion model (rc=%s): %s" % (rc, (se or "")[-600:]),
+                      {"kind": "cases", "module": "ExpandImpl", "cfg": cfg}, "replay-crash")
+        shutil.rmtree(d, ignore_errors=True)
+        return
+    summ = [json.loads(l) for l in so.splitlines() if l.startswith("{") and '"summary"' in l]
+    if not summ or summ[0]["impl_seen"] == 0:
+        raise vlib.FrameworkError("no ExpandImpl instance was replayed")
+    chk.cov.setdefault("impl_conformance", {})[cfg] = {"instances": summ[0]["impl_seen"], "real_widths_equal_model": summ[0]["impl_same"]}
+    chk.step("real expandCellsToDensity == exact-arithmetic transcription", instances=summ[0]["impl_seen"], conformant=summ[0]["impl_same"])
+    shutil.rmtree(d, ignore_errors=True)
+
+
 def run(chk):
+    carry_model(chk)
     tiny_scope(chk)
     plan = [
         dict(flavour="asan-ubsan", scen="expand", runs=(1200, 30000), opts={"varyScale": 4, "maxMovable": 8, "utilLo": 0.02, "utilHi": 0.9}),
